@@ -1,7 +1,115 @@
-(* C08 — A population never loses its best-known solution. *)
+(* C08 — A population never loses its best-known solution.
+   Only the property theorems, each closed by `exact`.  Model: Model/Population.v, lemmas: Proofs/PopulationP.v.
+   Reading guide: `run cmp dedup ops p0 = Some p` = the history `ops` (add / add_all / on_generation(stats) / select / ranked,
+   with the random draws, is_hit answers and the individuals returned by the GSOM nodes as oracle arguments of select) takes the
+   freshly constructed population p0 (Greedy, Elitism or Rosomaxa with a configuration its constructor accepts) to p without a
+   panic; `offered ops` = every individual passed to add or add_all; `total_preorder cmp` = what total_order promises. *)
 From VRP Require Import Base.Tac Model.Population Proofs.PopulationP.
+From Coq Require Import Sorted.
 
+(* clause 1 (elitist and self-organising population): the first ranked individual is no worse than every individual ever
+   offered, singly or in a batch — for every total preorder, every dedup predicate, every configuration, every history *)
+Theorem C08_best_never_lost :
+  forall (ind : Type) (cmp : ind -> ind -> comparison) (dedup : ind -> ind -> bool), total_preorder cmp ->
+  forall p0 : pop ind, start_state p0 -> forall (ops : list (op ind)) (p : pop ind),
+  is_greedy p0 = false -> run cmp dedup ops p0 = Some p ->
+  forall x, In x (offered ops) -> exists b, hd_error (ranked p) = Some b /\ cmp b x <> Gt.
+Proof. exact @best_never_lost. Qed.
+
+(* clause 1 for Greedy is FALSE in general (Greedy::add_all short-circuits: `acc || self.add(..)`), witness: *)
 Theorem C08_greedy_best_never_lost_refuted :
   exists ops p, run zcmp (zdedup 0 false) ops (greedy_new 1 None) = Some p /\
     exists x b, In x (offered ops) /\ hd_error (ranked p) = Some b /\ zcmp b x = Gt.
 Proof. exact greedy_add_all_refuted. Qed.
+
+(* clause 1, strongest statement valid for all three populations (Greedy included): no worse than what the population
+   was created with, every individual offered singly (add) and the first individual of every batch.
+   Missing for the full clause on Greedy: the individuals of a batch after the first accepted one. *)
+Theorem C08_best_never_lost_partial :
+  forall (ind : Type) (cmp : ind -> ind -> comparison) (dedup : ind -> ind -> bool), total_preorder cmp ->
+  forall p0 : pop ind, start_state p0 -> forall (ops : list (op ind)) (p : pop ind),
+  run cmp dedup ops p0 = Some p ->
+  forall x, In x (ranked p0 ++ offered_first ops) -> exists b, hd_error (ranked p) = Some b /\ cmp b x <> Gt.
+Proof. exact @best_never_lost_first. Qed.
+
+(* ... hence the full clause 1 also for Greedy when batches have at most one individual *)
+Theorem C08_best_never_lost_small_batches_partial :
+  forall (ind : Type) (cmp : ind -> ind -> comparison) (dedup : ind -> ind -> bool), total_preorder cmp ->
+  forall p0 : pop ind, start_state p0 -> forall (ops : list (op ind)) (p : pop ind),
+  batches_at_most_one ops -> run cmp dedup ops p0 = Some p ->
+  forall x, In x (ranked p0 ++ offered ops) -> exists b, hd_error (ranked p) = Some b /\ cmp b x <> Gt.
+Proof. exact @best_never_lost_small_batches. Qed.
+
+(* clause 2: the ranking is sorted *)
+Theorem C08_ranked_sorted :
+  forall (ind : Type) (cmp : ind -> ind -> comparison) (dedup : ind -> ind -> bool), total_preorder cmp ->
+  forall p0 : pop ind, start_state p0 -> forall (ops : list (op ind)) (p : pop ind),
+  run cmp dedup ops p0 = Some p -> StronglySorted (fun a b => cmp a b <> Gt) (ranked p).
+Proof. exact @ranked_sorted. Qed.
+
+(* clause 3: sizes stay within the configured bound (1 / max_population_size / elite_size), which never changes *)
+Theorem C08_size_bounds :
+  forall (ind : Type) (cmp : ind -> ind -> comparison) (dedup : ind -> ind -> bool), total_preorder cmp ->
+  forall p0 : pop ind, start_state p0 -> forall (ops : list (op ind)) (p : pop ind),
+  run cmp dedup ops p0 = Some p -> (size p <= max_size p)%nat /\ max_size p = max_size p0.
+Proof. exact @size_bounds. Qed.
+
+(* clause 4: selection returns only offered individuals (for Rosomaxa in Exploration: provided the network nodes return
+   offered individuals — the network is not modelled, this premise is validated on every run) *)
+Theorem C08_select_offered :
+  forall (ind : Type) (cmp : ind -> ind -> comparison) (dedup : ind -> ind -> bool), total_preorder cmp ->
+  forall p0 : pop ind, start_state p0 ->
+  forall (ops : list (op ind)) (p : pop ind) (draws : list Z) (hits : list bool) (nodes : list ind),
+  run cmp dedup ops p0 = Some p -> incl nodes (offered ops) ->
+  forall y, In y (select p draws hits nodes) -> In y (ranked p0 ++ offered ops).
+Proof. exact @select_offered. Qed.
+
+(* clause 5: selection returns something whenever the population is non-empty (selection_size >= 1) *)
+Theorem C08_select_nonempty :
+  forall (ind : Type) (cmp : ind -> ind -> comparison) (dedup : ind -> ind -> bool), total_preorder cmp ->
+  forall p0 : pop ind, start_state p0 ->
+  forall (ops : list (op ind)) (p : pop ind) (draws : list Z) (hits : list bool) (nodes : list ind),
+  run cmp dedup ops p0 = Some p -> (1 <= selection_size p0)%nat -> (0 < size p)%nat ->
+  select p draws hits nodes <> [].
+Proof. exact @select_nonempty. Qed.
+
+(* the hypothesis selection_size >= 1 is needed: Elitism::new accepts selection_size = 0 and then selects nothing *)
+Theorem C08_select_empty_with_zero_selection_size :
+  exists p0 ops p, elitism_new 2 0 = Some p0 /\ run zcmp (zdedup 0 false) ops p0 = Some p /\
+    (0 < size p)%nat /\ select p [] [] [] = [].
+Proof. exact select_empty_with_zero_selection_size. Qed.
+
+(* selection phases only move forward: Initial -> Exploration -> Exploitation (shared with C19) *)
+Theorem C08_phases_forward :
+  forall (ind : Type) (cmp : ind -> ind -> comparison) (dedup : ind -> ind -> bool) (p : pop ind) (o : op ind) (p' : pop ind),
+  step cmp dedup p o = Some p' -> (phase_rank p <= phase_rank p')%nat.
+Proof. exact @phases_forward. Qed.
+
+(* consequence: the evolution loop (initial solutions through `add`, then per generation select / add_all offspring /
+   on_generation, result = first ranked) never ends with a head worse than an initial solution — all three populations *)
+Theorem C08_seeded_never_worse :
+  forall (ind : Type) (cmp : ind -> ind -> comparison) (dedup : ind -> ind -> bool), total_preorder cmp ->
+  forall p0 : pop ind, start_state p0 ->
+  forall (inits : list ind) (gens : list generation) (r : option ind),
+  solve cmp dedup p0 inits gens = Some r ->
+  forall x, In x inits -> exists b, r = Some b /\ cmp b x <> Gt.
+Proof. exact @seeded_never_worse. Qed.
+
+(* histories never panic for Rosomaxa with initial_size >= 4 (Greedy and Elitism have no panicking step in the model) ... *)
+Theorem C08_rosomaxa_no_panic :
+  forall (ind : Type) (cmp : ind -> ind -> comparison) (dedup : ind -> ind -> bool) (c : rconfig) (p0 : pop ind) (ops : list (op ind)),
+  (4 <= c_initial c)%nat -> rosomaxa_new c = Some p0 -> run cmp dedup ops p0 <> None.
+Proof. exact @rosomaxa_no_panic. Qed.
+(* ... and do for smaller initial_size, which Rosomaxa::new accepts (expect("cannot create network")) *)
+Theorem C08_rosomaxa_small_initial_size_panics :
+  exists c p0 ops, rosomaxa_new c = Some p0 /\ c_initial c = 3%nat /\ run zcmp (zdedup 5 false) ops p0 = None.
+Proof. exact rosomaxa_small_initial_size_panics. Qed.
+
+(* non-vacuity: the integer-key order used by the correspondence is a total preorder; a history through all three phases exists *)
+Theorem C08_nonvacuous_order : total_preorder zcmp.
+Proof. exact zcmp_total_preorder. Qed.
+Theorem C08_nonvacuous_history :
+  exists p0 ops p, rosomaxa_new {| c_initial := 4; c_sel := 7; c_elite := 2; c_er := 32 |} = Some p0 /\
+    run zcmp (zdedup 5 false) ops p0 = Some p /\ phase_rank p = 2%nat /\
+    map zid (ranked p) = [7; 5] /\ length (offered ops) = 7%nat.
+Proof. exact nonvacuous_history. Qed.
